@@ -715,6 +715,86 @@ fn equnk_case(out: &mut Out, t1: u16, b1: &[u8], t2: u16, b2: &[u8]) {
     chk(out, ea == same, "allrecorddata_eq_unknown", &case, &format!("AllRecordData::Unknown == gives {} for {} data", ea, if same { "identical" } else { "different" }));
 }
 
+/// T2: the record pushed twice into a message whose owner / question names share suffixes with
+/// the names of the value, on target 0 Vec, 1 Static, 2 Tree, 3 Hash compressor.  Observed:
+/// rdlen(true); the RDATA of the second record read back and re-composed uncompressed; whether
+/// every RDLENGTH matches the octets of its RDATA; for a type that cannot compress, whether
+/// the RDATA octets in the message are the plain composition.
+fn viamsg_case(out: &mut Out, r: &mut Rng, target: u64, t: u16, v: &[Val]) {
+    let built = match catch_mut(|| build(t, v)) { Ok(Ok(b)) => b, _ => return };
+    let plainw = match compose_plain(&built) { Ok(w) => w, Err(_) => return };
+    if plainw.len() > 20000 { return; }
+    // owner: a suffix or sibling of one of the names of the value, so compression has something to share
+    let names: Vec<&Vec<u8>> = v.iter().filter_map(|x| if let Val::Name(w) = x { Some(w) } else { None }).collect();
+    let owner_w: Vec<u8> = if names.is_empty() || r.chance(1, 4) { gen_name(r) } else {
+        let w = *r.pick(&names);
+        match r.below(3) {
+            0 => w.clone(),
+            1 => { let k = 1 + w[0] as usize; if w[0] == 0 { w.clone() } else { w[k..].to_vec() } }     // parent
+            _ => { let mut o = vec![1u8, b'x']; o.extend_from_slice(w); if o.len() > 255 { w.clone() } else { o } }   // child
+        }
+    };
+    let owner: DN = match Name::from_octets(owner_w) { Ok(n) => n, Err(_) => return };
+    let res = catch_mut(|| -> Result<Vec<u8>, ()> {
+        macro_rules! go { ($target:expr, $fin:expr) => {{
+            let mb = MessageBuilder::from_target($target).map_err(|_| ())?;
+            let mut q = mb.question();
+            q.push((&owner, Rtype::from_int(t))).map_err(|_| ())?;
+            let mut a = q.answer();
+            a.push((&owner, Class::IN, Ttl::from_secs(300), &built)).map_err(|_| ())?;
+            a.push((&owner, Class::IN, Ttl::from_secs(300), &built)).map_err(|_| ())?;
+            Ok($fin(a.finish()))
+        }}}
+        match target {
+            0 => go!(Vec::<u8>::new(), |x: Vec<u8>| x),
+            1 => go!(StaticCompressor::new(Vec::<u8>::new()), |x: StaticCompressor<Vec<u8>>| x.into_target()),
+            2 => go!(TreeCompressor::new(Vec::<u8>::new()), |x: TreeCompressor<Vec<u8>>| x.into_target()),
+            _ => go!(HashCompressor::new(Vec::<u8>::new()), |x: HashCompressor<Vec<u8>>| x.into_target()),
+        }
+    });
+    let bytes = match res { Ok(Ok(b)) => b, _ => return };
+    let case = format!("viamsg {} {} {}", target, t, toks(v));
+    out.begin(&case);
+    let can_compress = target != 0;
+    let rlc = catch_mut(|| built.rdlen(can_compress));
+    let rlt = catch_mut(|| built.rdlen(true));
+    // walk the two records
+    let walk = catch_mut(|| -> Result<(bool, bool, Vec<u8>), String> {
+        let mut p = Parser::from_ref(&bytes[..]);
+        p.advance(12).map_err(|_| "hdr")?;
+        ParsedName::skip(&mut p).map_err(|_| "qname")?;
+        p.advance(4).map_err(|_| "q")?;
+        let mut lens_ok = true; let mut all_plain = true; let mut back = vec![];
+        for i in 0..2 {
+            ParsedName::skip(&mut p).map_err(|_| "owner")?;
+            p.advance(8).map_err(|_| "fixed")?;
+            let rdlen = p.parse_u16_be().map_err(|_| "rdlen")? as usize;
+            let start = p.pos();
+            if p.remaining() < rdlen { lens_ok = false; break; }
+            if bytes[start..start + rdlen] != plainw[..] { all_plain = false; }
+            match parse_at(t, &bytes, start, start + rdlen) {
+                Ok(Ok(d)) => { if i == 1 {
+                    // names up to ASCII case (compression takes the spelling of the earlier occurrence)
+                    let folded = explode(&d).map(|e| fold_names(&e)).ok_or("explode")?;
+                    let fb = build(t, &folded).map_err(|_| "rebuild")?;
+                    back = compose_plain(&fb).map_err(|_| "recompose")?; } }
+                _ => { lens_ok = false; }
+            }
+            p.advance(rdlen).map_err(|_| "adv")?;
+        }
+        if p.remaining() != 0 { lens_ok = false; }
+        Ok((lens_ok, all_plain, back))
+    });
+    let (lens_ok, all_plain, back) = match walk { Ok(Ok(x)) => x, _ => (false, false, vec![]) };
+    let wire_col = match &rlt { Ok(Some(_)) => if all_plain { "plain" } else { "differs" }, _ => "any" };
+    let obs = format!("rdlenc={} back={} rdlength={} wire={}", show_rdlen(&rlt), hex(&back), if lens_ok { "ok" } else { "BAD" }, wire_col);
+    out.case(&case, &obs, true, "viamsg");
+    let tn = tname(t);
+    // rdlen(can_compress) is what compose_len_rdata uses on this target
+    if let Ok(Some(n)) = rlc { chk(out, lens_ok && (!can_compress && n as usize == plainw.len() || can_compress), &format!("rdlen_{}", tn), &case, "advertised length on this target"); }
+    chk(out, lens_ok, &format!("rdlen_{}", tn), &case, "RDLENGTH in the message does not match the RDATA octets");
+}
+
 /// parse cases derived from one value
 fn parse_cases_for(out: &mut Out, r: &mut Rng, t: u16, v: &[Val]) {
     let fs = fields_v(t, v);
@@ -1548,6 +1628,7 @@ fn main() {
             compose_case(&mut out, &mut r, t, &v, "compose");
             let v2 = gen_value(&mut r, t, false);
             parse_cases_for(&mut out, &mut r, t, &v2);
+            if i % 2 == 0 { let tg = r.below(4); viamsg_case(&mut out, &mut r, tg, t, &v2); }
         }
     }
     irregular::run(&mut out, &mut r, n);
